@@ -12,9 +12,7 @@ import (
 	"path/filepath"
 	"runtime/debug"
 	"strings"
-	"sync/atomic"
 	"testing"
-	"time"
 
 	"github.com/theparanoids/ysshra/agent/yubiagent"
 	"golang.org/x/crypto/ssh"
@@ -248,7 +246,23 @@ func tmpRoot() string {
 	return os.TempDir()
 }
 
+// execC13 runs the session inside a bubble: there is no clock in this property, but the bubble detects exactly
+// when every goroutine of the session is blocked for ever (an operation that never completes).
 func execC13(t *testing.T, raw json.RawMessage) *sim.Outcome {
+	var o *sim.Outcome
+	fail := sim.InBubble(t, func() { o = sessionC13(t, raw) })
+	if o == nil {
+		o = &sim.Outcome{}
+	}
+	if fail != "" {
+		o.All = nil
+		failBubble(o, fail)
+		o.Signature = "stalled"
+	}
+	return o
+}
+
+func sessionC13(t *testing.T, raw json.RawMessage) *sim.Outcome {
 	o := &sim.Outcome{}
 	var p C13Plan
 	if err := json.Unmarshal(raw, &p); err != nil {
@@ -280,7 +294,6 @@ func execC13(t *testing.T, raw json.RawMessage) *sim.Outcome {
 		}
 		served = yubiagent.VerifNewServer(st, tool, p.Remote)
 	}
-	var stalled atomic.Bool
 	a, b := net.Pipe()
 	srvConn := &simconn.Chunked{Conn: b, ReadSizes: p.WChunks, WriteSizes: p.RChunks}
 	cliConn := &simconn.Chunked{Conn: a, ReadSizes: p.RChunks, WriteSizes: p.WChunks}
@@ -307,17 +320,7 @@ func execC13(t *testing.T, raw json.RawMessage) *sim.Outcome {
 	}
 	var sig []string
 	ended := false
-	// watchdog (real time; this world has no clock): an operation that never completes is a violation
-	stallTimer := time.AfterFunc(20*time.Second, func() {
-		stalled.Store(true)
-		a.Close()
-		b.Close()
-	})
-	defer stallTimer.Stop()
 	for i, op := range p.Ops {
-		if stalled.Load() {
-			break
-		}
 		if ended {
 			break
 		}
@@ -569,12 +572,6 @@ func execC13(t *testing.T, raw json.RawMessage) *sim.Outcome {
 	a.Close()
 	b.Close()
 	<-done
-	if stalled.Load() {
-		o.All = nil
-		o.Fail("any.stalled", "stalled", len(sig), "the client session did not complete within 20 s of real time: an operation over the chunked transport never returned (operations so far: %v)", sig)
-		o.Signature = "stalled"
-		return o
-	}
 	if srvPanic != nil && o.All == nil {
 		o.Fail("C13.no_crash", "server_panic:"+panicSite(srvStack), len(p.Ops), "the server side crashed: %v", srvPanic)
 	}
